@@ -820,15 +820,11 @@ class UnaryOp(Expr):
         else:
             raise InternalError('Unknown unary operator')
 
-        if self.arg.type == Type.INTEGER:
-            max_positive_int = 2**15 - 1
-            max_negative_int = -2**15
-        else:
-            max_positive_int = 2**31 - 1
-            max_negative_int = -2**31
-
-        if value > max_positive_int or value < max_negative_int:
-            value = max_negative_int
+        # a result the type of the expression cannot hold (like
+        # -(-32768) as an INTEGER) overflows at run time; the caller
+        # leaves the expression alone when it sees the exception
+        if self.type.is_integral and not self.type.can_hold(value):
+            raise OverflowError
 
         return value
 
